@@ -17,7 +17,7 @@ func C16_reader_cut() {
 	item := spans[:len(spans)-1] // frames of the first item
 	itemEnd := item[len(item)-1].end
 	cut := vChoose("cut", itemEnd) // 0 .. itemEnd-1: the first item is always incomplete
-	kind := vChoose("kind", 4) // EOF / error, reported separately or together with the last bytes
+	kind := vChoose("kind", 4)     // EOF / error, reported separately or together with the last bytes
 	useErr := kind%2 == 1
 	withData := kind >= 2
 	one := vChoose("chunk", 2) == 1
